@@ -599,6 +599,13 @@ def search(ctx):
         rec(check_paths(s1, s2), {'kind': 'paths', 'mode': mode, 'path1': [gen.seg_json(s) for s in s1], 'path2': [gen.seg_json(s) for s in s2]})
     by = {}
     for f in fails: by[f['class']] = by.get(f['class'], 0) + 1
+    # stale state: measure, edit an operand in place, measure again (per-segment caches must not survive the edit)
+    for _ in range(ctx.n(30, 600)):
+        k1, k2 = rng.choice([2, 3, 4]), rng.choice([2, 3, 4])
+        a, b = seg_pair(rng, k1, k2, False, 'disjoint')
+        ff = gen.freshness(rng, a, {'curveDistance(self, other)': lambda x: curveDistance(x, gen.fresh_copy(b)), 'curveDistance(other, self)': lambda x: curveDistance(gen.fresh_copy(b), x)})
+        ev += 1; dist['stale-state'] = dist.get('stale-state', 0) + 1
+        if ff: fails.append({'class': 'C20-stale-state', 'what': ff[0], 'input': None, 'observed': ff[:3], 'expected': 'the answer for freshly constructed segments with the same control points'})
     return {'evaluations': ev, 'distinct_nontrivial': len(seen), 'failures': fails, 'distribution': dist, 'samples': samples,
             'measured': dict(worst, failures_by_class=by)}
 
